@@ -309,6 +309,38 @@ for e in ('r_is', 'r_is_values', 'r_starts_ends', 'r_all_any_none'):
     ob(name='ranges.%s' % e[2:], kind='BL', props=['C11'], unit='ranges', harness='h_ranges.c', entry=e, unwind=6,
        bound='range = C array of length 3 (the length is part of the type, so the loops have a concrete bound); element lists of length 2-3; element matchers abstract (free answer per element) or plain int values')
 
+# unit ranges2: range_includes / range_is_permutation (std::vector<std::function<bool(const E&)>> of predicate closures)
+_PM = "13param_matchesINS_17predicate_matcherINS_4impl"
+UNITS['ranges2'] = {
+    'opaque': [r'6vp_absILi\dEE7matchesERKi'], 'dyn_types': [], 'erase_functions': True, 'vector_cap': 4,
+    'roots': {
+        "RG_INC12": _PM + "25includes_elements_checkerE.*vp_absILi1EEENS7_ILi2EEEEEEJS8_S9_EEESt17reference_wrapperIA3_iEE",
+        "RG_INC11": _PM + "25includes_elements_checkerE.*vp_absILi1EEES8_EEEJS8_S8_EEESt17reference_wrapperIA3_iEE",
+        "RG_INC_VALUES": _PM + "25includes_elements_checkerE.*JiiEEEJiiEEESt17reference_wrapperIA3_iEE",
+        "RG_PERM123": _PM + "31is_permutation_elements_checkerE.*vp_absILi1EEENS7_ILi2EEENS7_ILi3EEEEEEJS8_S9_SA_EEESt17reference_wrapperIA3_iEE",
+        "RG_PERM12": _PM + "31is_permutation_elements_checkerE.*vp_absILi1EEENS7_ILi2EEEEEEJS8_S9_EEESt17reference_wrapperIA3_iEE",
+        "RG_PERM_VALUES": _PM + "31is_permutation_elements_checkerE.*JiiiEEEJiiiEEESt17reference_wrapperIA3_iEE",
+    },
+}
+for e in ('r_includes', 'r_includes_values', 'r_permutation', 'r_permutation_values'):
+    ob(name='ranges.%s' % e[2:], kind='BL', props=['C11'], unit='ranges2', harness='h_ranges2.c', entry=e, unwind=6,
+       bound='range = C array of length 3; element lists of length 2-3 (std::vector model capacity 4); element matchers abstract (free answer per element) or plain int values')
+
+# unit ranges3: the range-of-values flavours (elements held as mini_span<int>: one instantiation covers every element-list length)
+UNITS['ranges3'] = {
+    'opaque': [], 'dyn_types': [], 'erase_functions': True, 'vector_cap': 4,
+    'roots': {
+        "RGR_INC": _PM + "22includes_range_checkerE.*9mini_spanIiEEEEEJS7_EEESt17reference_wrapperIA3_iEE",
+        "RGR_PERM": _PM + "28is_permutation_range_checkerE.*9mini_spanIiEEEEEJS7_EEESt17reference_wrapperIA3_iEE",
+        "RGR_IS": _PM + "16is_range_checkerE.*9mini_spanIiEEEEEJS7_EEESt17reference_wrapperIA3_iEE",
+        "RGR_STARTS": _PM + "25starts_with_range_checkerE.*9mini_spanIiEEEEEJS7_EEESt17reference_wrapperIA3_iEE",
+        "RGR_ENDS": _PM + "23ends_with_range_checkerE.*9mini_spanIiEEEEEJS7_EEESt17reference_wrapperIA3_iEE",
+    },
+}
+for e in ('rr_is_starts_ends', 'rr_includes', 'rr_permutation'):
+    ob(name='ranges.values_range.%s' % e[3:], kind='BL', props=['C11'], unit='ranges3', harness='h_ranges3.c', entry=e, unwind=7,
+       bound='range = C array of length 3; list of element values given as a range (C array seen through mini_span) of every length 0..4 (std::vector model capacity 4); all int values')
+
 # ----------------------------------------------------------------------------------------------
 # unit find_is: UNBOUNDED induction (init / step / exit as DFCC contracts) for find()'s selection rule (C02)
 UNITS['find_is'] = {
